@@ -724,4 +724,104 @@ def frameEvents (ctx : FrameCtx) (h : Header) : Frame → List FloodOp
 def floodFrame (s : Flood) (ctx : FrameCtx) (h : Header) (f : Frame) : Flood × Option Violation :=
   floodRun s (frameEvents ctx h f)
 
+
+/-! ## connection histories (server position): the stream map over a whole frame sequence -/
+
+/-- the part of `ConnectionH2` the stream-state decisions read and write -/
+structure Conn where
+  /-- a connection error was answered (GOAWAY): nothing more is read -/
+  dead : Bool
+  /-- `self.streams`: wire id and `front_received_end_of_stream` -/
+  live : List (Nat × Bool)
+  /-- `last_stream_id`: highest id a stream was *created* for -/
+  lastId : Nat
+  /-- `highest_peer_stream_id`: also advanced by refusals -/
+  highest : Nat
+  /-- `rst_sent`: ids sozu has queued a RST_STREAM for (`enqueue_rst` deduplicates on it) -/
+  rstSent : List Nat
+  /-- advertised SETTINGS_MAX_CONCURRENT_STREAMS -/
+  maxStreams : Nat
+  /-- `drain.draining` (after `graceful_goaway`) -/
+  draining : Bool
+deriving Repr, DecidableEq
+
+def Conn.init (maxStreams : Nat) : Conn :=
+  { dead := false, live := [], lastId := 0, highest := 0, rstSent := [], maxStreams := maxStreams, draining := false }
+
+def liveGet (l : List (Nat × Bool)) (sid : Nat) : Option Bool :=
+  match l with
+  | [] => none
+  | (k, e) :: r => if k = sid then some e else liveGet r sid
+
+def liveRemove (l : List (Nat × Bool)) (sid : Nat) : List (Nat × Bool) := l.filter fun p => p.1 != sid
+
+def liveSetEos (l : List (Nat × Bool)) (sid : Nat) : List (Nat × Bool) :=
+  l.map fun p => if p.1 = sid then (p.1, true) else p
+
+inductive ConnOp where
+  /-- a frame from the peer on an odd, non-zero stream id; `endStream`: its END_STREAM flag -/
+  | frame (sid : Nat) (fk : FrameKind) (endStream : Bool)
+  /-- sozu finished (or abandoned) the response on `sid`: the stream leaves the map -/
+  | respond (sid : Nat)
+  /-- `graceful_goaway`: from now on new streams are refused -/
+  | startDrain
+deriving Repr, DecidableEq
+
+def Conn.view (c : Conn) (sid : Nat) : StreamView :=
+  { known := (liveGet c.live sid).isSome, receivedEos := liveGet c.live sid == some true,
+    aboveLast := decide (sid > c.lastId), leHighest := decide (sid ≤ c.highest), rstSent := c.rstSent.contains sid }
+
+/-- `handle_header_state` + the handlers' effect on the stream map, for one event.
+    The output is `none` when nothing is read any more (after a connection error). -/
+def connStep (c : Conn) (op : ConnOp) : Conn × Option StreamOut :=
+  match op with
+  | .startDrain => ({ c with draining := true }, none)
+  | .respond sid => ({ c with live := liveRemove c.live sid }, none)
+  | .frame sid fk es =>
+    if c.dead then (c, none)
+    else if fk = .headers ∧ (liveGet c.live sid).isNone ∧ sid > c.lastId then
+      -- a new stream: refused (draining / limit) or created
+      if c.draining ∨ c.live.length ≥ c.maxStreams then
+        if c.rstSent.contains sid then ({ c with highest := max c.highest sid }, some .handled)
+        else ({ c with highest := max c.highest sid, rstSent := sid :: c.rstSent }, some (.streamError REFUSED_STREAM))
+      else
+        ({ c with live := (sid, es) :: c.live, lastId := sid, highest := max c.highest sid }, some .handled)
+    else
+      match headerVerdict (c.view sid) fk with
+      | .connError code => ({ c with dead := true }, some (.connError code))
+      | .streamError code => ({ c with rstSent := sid :: c.rstSent }, some (.streamError code))
+      | .handled =>
+        if (liveGet c.live sid).isSome then
+          if fk = .rstStream then ({ c with live := liveRemove c.live sid }, some .handled)
+          else if (fk = .data ∨ fk = .headers) ∧ es = true then ({ c with live := liveSetEos c.live sid }, some .handled)
+          else (c, some .handled)
+        else (c, some .handled)
+
+/-- a whole history: final state and the answers, in order -/
+def connRun (c : Conn) : List ConnOp → Conn × List (Option StreamOut)
+  | [] => (c, [])
+  | op :: ops =>
+    let r := connStep c op
+    let t := connRun r.1 ops
+    (t.1, r.2 :: t.2)
+
+/-- RFC 9113 §5.1 state of a client-initiated stream as the server sees it -/
+inductive RfcSt where
+  | idle | open | halfClosedRemote | closed
+deriving DecidableEq, Repr
+
+def Conn.rfcState (c : Conn) (sid : Nat) : RfcSt :=
+  match liveGet c.live sid with
+  | some false => .open
+  | some true => .halfClosedRemote
+  | none => if sid ≤ c.highest then .closed else .idle
+
+/-- the transitions of the RFC 9113 §5.1 diagram (receiving side), with "stay" -/
+def rfcEdge : RfcSt → RfcSt → Bool
+  | .idle, _ => true
+  | .open, .open | .open, .halfClosedRemote | .open, .closed => true
+  | .halfClosedRemote, .halfClosedRemote | .halfClosedRemote, .closed => true
+  | .closed, .closed => true
+  | _, _ => false
+
 end Sozu.H2Wire
